@@ -28,7 +28,11 @@ namespace
 
     // active / marked: the node's own declaration (schema.active_inputs) and the wiring-time passive marker
     // (NodeBuilder::with_passive_inputs); wire value 0 passive, 1 active, 2 active + marked, 3 passive + marked
-    struct InSpec { std::size_t src; bool active; bool required; bool marked; };
+    // role: 0 plain TS<int> slot; 1 / 2 = first / second element of a TSL<TS<int>,2> slot (two consecutive entries
+    // form ONE input slot whose elements are bound to two producers); all_valid: the slot is listed in
+    // schema.all_valid_inputs.  slot / elem are derived: position of the entry in the input bundle.
+    struct InSpec { std::size_t src; bool active; bool required; bool marked; int role{0}; bool all_valid{false};
+                    std::size_t slot{0}; std::size_t elem{0}; };
     struct Op { std::int64_t code, a, b; };
     struct NodeSpec
     {
@@ -89,8 +93,17 @@ namespace
                         auto bundle = root.as_bundle();
                         for (std::size_t s = 0; s < n.ins.size(); ++s)
                         {
-                            auto in = bundle[s];
-                            if (in.valid()) { v += in.value().template checked_as<std::int64_t>(); }
+                            auto slot_view = bundle[n.ins[s].slot];
+                            if (n.ins[s].role == 0)
+                            {
+                                if (slot_view.valid()) { v += slot_view.value().template checked_as<std::int64_t>(); }
+                            }
+                            else
+                            {
+                                auto xl = slot_view.as_list();
+                                auto in = xl[n.ins[s].elem];
+                                if (in.valid()) { v += in.value().template checked_as<std::int64_t>(); }
+                            }
                         }
                     }
                     {
@@ -107,9 +120,10 @@ namespace
                 case 10:
                 {
                     if (op.a < 0 || (std::size_t)op.a >= n.ins.size()) { break; }
+                    if (n.ins[(std::size_t)op.a].role != 0) { break; }   // list slots keep their declared activity
                     auto root   = view.input(now);
                     auto bundle = root.as_bundle();
-                    auto in     = bundle[(std::size_t)op.a];
+                    auto in     = bundle[n.ins[(std::size_t)op.a].slot];
                     if (op.code == 9) { in.make_passive(); } else { in.make_active(); }
                     break;
                 }
@@ -165,7 +179,17 @@ namespace
                 for (std::int64_t s = 0; s < l[5]; ++s)
                 {
                     const std::int64_t a = l[8 + 3 * s];
-                    n.ins.push_back({(std::size_t)l[7 + 3 * s], a == 1 || a == 2, l[9 + 3 * s] != 0, a == 2 || a == 3});
+                    const std::int64_t c = l[9 + 3 * s];   // required + 2 * role + 8 * all_valid
+                    InSpec in{(std::size_t)l[7 + 3 * s], a == 1 || a == 2, (c & 1) != 0, a == 2 || a == 3,
+                              (int)((c >> 1) & 3), ((c >> 3) & 1) != 0};
+                    n.ins.push_back(in);
+                }
+                std::size_t slot = 0;
+                for (std::size_t s = 0; s < n.ins.size(); ++s)
+                {
+                    n.ins[s].slot = slot;
+                    n.ins[s].elem = n.ins[s].role == 2 ? 1 : 0;
+                    if (n.ins[s].role != 1) { ++slot; }
                 }
                 ctx.nodes.push_back(std::move(n));
             }
@@ -187,15 +211,28 @@ namespace
             {
                 std::vector<std::pair<std::string, const TSValueTypeMetaData *>> fields;
                 std::vector<TSEndpointSchema>                                    children;
-                std::vector<std::size_t>                                         active, valid;
+                std::vector<std::size_t>                                         active, valid, all_valid;
                 bool                                                             all_active = true;
+                const auto *list2 = registry.tsl(ts_int, 2);
                 for (std::size_t s = 0; s < n.ins.size(); ++s)
                 {
-                    fields.emplace_back("i" + std::to_string(s), ts_int);
-                    children.push_back(TSEndpointSchema::peered(ts_int));
-                    if (n.ins[s].active) { active.push_back(s); } else { all_active = false; }
-                    if (n.ins[s].required) { valid.push_back(s); }
+                    if (n.ins[s].role == 2) { continue; }   // second element of the slot opened by the previous entry
+                    const std::size_t slot = n.ins[s].slot;
+                    if (n.ins[s].role == 1)
+                    {
+                        fields.emplace_back("i" + std::to_string(slot), list2);
+                        children.push_back(TSEndpointSchema::non_peered_list(list2, TSEndpointSchema::peered(ts_int)));
+                    }
+                    else
+                    {
+                        fields.emplace_back("i" + std::to_string(slot), ts_int);
+                        children.push_back(TSEndpointSchema::peered(ts_int));
+                    }
+                    if (n.ins[s].active) { active.push_back(slot); } else { all_active = false; }
+                    if (n.ins[s].required) { valid.push_back(slot); }
+                    if (n.ins[s].all_valid) { all_valid.push_back(slot); }
                 }
+                schema.all_valid_inputs = all_valid;
                 const auto *in_schema = registry.un_named_tsb(fields);
                 schema.input_schema   = in_schema;
                 if (!all_active) { schema.active_inputs = active; }
@@ -220,21 +257,30 @@ namespace
                 {
                     auto root   = v.input(t);
                     auto bundle = root.as_bundle();
-                    for (std::size_t s = 0; s < n.ins.size(); ++s)
-                    {
-                        auto in = bundle[s];
+                    const auto put = [&l](auto &in) {
                         const bool valid = in.valid();
                         l.push_back(valid);
                         l.push_back(in.modified());
                         l.push_back(valid ? in.value().template checked_as<std::int64_t>() : 0);
                         l.push_back(us(in.last_modified_time()));
+                    };
+                    for (std::size_t s = 0; s < n.ins.size(); ++s)
+                    {
+                        auto slot_view = bundle[n.ins[s].slot];
+                        if (n.ins[s].role == 0) { put(slot_view); }
+                        else
+                        {
+                            auto xl = slot_view.as_list();
+                            auto in = xl[n.ins[s].elem];
+                            put(in);
+                        }
                     }
                 }
                 pc->out->line(l);
                 run_ops(*pc, i, v, t, true, k);
             };
             std::vector<std::size_t> marked;
-            for (std::size_t s = 0; s < n.ins.size(); ++s) { if (n.ins[s].marked) { marked.push_back(s); } }
+            for (std::size_t s = 0; s < n.ins.size(); ++s) { if (n.ins[s].marked && n.ins[s].role != 2) { marked.push_back(n.ins[s].slot); } }
             try
             {
                 NodeBuilder nb = endpoint ? NodeBuilder::native(std::move(schema), std::move(cb), std::move(*endpoint))
@@ -253,7 +299,9 @@ namespace
         {
             for (std::size_t s = 0; s < ctx.nodes[i].ins.size(); ++s)
             {
-                gb.add_edge(GraphEdge{.source_node = ctx.nodes[i].ins[s].src, .source_path = {}, .target_node = i, .target_path = {s}});
+                const InSpec &in = ctx.nodes[i].ins[s];
+                if (in.role == 0) { gb.add_edge(GraphEdge{.source_node = in.src, .source_path = {}, .target_node = i, .target_path = {in.slot}}); }
+                else { gb.add_edge(GraphEdge{.source_node = in.src, .source_path = {}, .target_node = i, .target_path = {in.slot, in.elem}}); }
             }
         }
 
